@@ -47,7 +47,7 @@ PROPS = {
             "assumptions": ["Model/SrvLock.v is a hand transcription of the handler's TryLock / critical section / Unlock; one storage command is one atomic step", "storage commands on documents of different datatypes commute (hypothesis of the serializability theorem; validated by replaying real concurrent rounds on the sequential model)", "PatchDocument is not driven (Document is not modelled)"]},
     "C13": {"slices": WIRE, "trusted": SRV_TRUST, "assumptions": ["handlers of one datatype run one at a time"]},
     "C16": {"slices": WIRE, "trusted": SRV_TRUST, "assumptions": ["liveness of the Go code (no hang, no crash) is tested, not proved"]},
-    "C17": {"slices": WIRE, "trusted": SRV_TRUST, "assumptions": ["ResetCollection is not modelled yet"]},
+    "C17": {"slices": WIRE, "trusted": SRV_TRUST, "assumptions": ["ResetCollection is modelled and exercised once at the end of a history (resets in the middle of a history are covered by the theorem, not driven)"]},
     "C18": {"slices": WIRE + REALTIME, "trusted": SRV_TRUST + ["realtime slices: real gRPC on the loopback interface, goroutine scheduling and timing of the real client (convergence is awaited up to 5 s)"],
             "assumptions": ["the client's notification filter (own CUID, DUID, NeedPull) is exercised end to end by the realtime slices and judged by convergence, not modelled"]},
     "C19": {"slices": DOC + [WIRE[3]], "trusted": ["github.com/wI2L/jsondiff (the edit script generator) is exercised, not modelled"],
